@@ -2,7 +2,12 @@
 
 package redis
 
-import redigolib "github.com/gomodule/redigo/redis"
+import (
+	"errors"
+	"sync/atomic"
+
+	redigolib "github.com/gomodule/redigo/redis"
+)
 
 type hookConn struct {
 	redigolib.Conn
@@ -15,3 +20,58 @@ func (c hookConn) Do(cmd string, args ...interface{}) (interface{}, error) {
 	}
 	return c.Conn.Do(cmd, args...)
 }
+
+// ---- fault injection: while the flag is set every command of every connection of this store fails the way a
+// lost Redis does (the error text carries an address and a marker that must never reach a client)
+
+type failConn struct {
+	redigolib.Conn
+	fail *int32
+}
+
+var errRedisDown = errors.New("dial tcp 10.0.0.5:6379: connect: connection refused SECRET-redis-down")
+
+func (c failConn) down() bool { return atomic.LoadInt32(c.fail) != 0 }
+func (c failConn) Do(cmd string, args ...interface{}) (interface{}, error) {
+	if c.down() {
+		return nil, errRedisDown
+	}
+	return c.Conn.Do(cmd, args...)
+}
+func (c failConn) Send(cmd string, args ...interface{}) error {
+	if c.down() {
+		return errRedisDown
+	}
+	return c.Conn.Send(cmd, args...)
+}
+func (c failConn) Flush() error {
+	if c.down() {
+		return errRedisDown
+	}
+	return c.Conn.Flush()
+}
+func (c failConn) Receive() (interface{}, error) {
+	if c.down() {
+		return nil, errRedisDown
+	}
+	return c.Conn.Receive()
+}
+
+// VerifFailSwitch installs the switch (once per store) and returns it.
+func VerifFailSwitch(s interface{}) *int32 {
+	ps := s.(*peerStore)
+	flag := new(int32)
+	inner := ps.rb.pool.Dial
+	ps.rb.pool = &redigolib.Pool{
+		MaxIdle: 3,
+		Dial: func() (redigolib.Conn, error) {
+			c, err := inner()
+			if err != nil {
+				return nil, err
+			}
+			return failConn{Conn: c, fail: flag}, nil
+		},
+	}
+	return flag
+}
+
